@@ -1,6 +1,7 @@
 (** * The sweep lemma over the reals, and back to rational parameters (C01, continuity half, stage B).
 
-    - [sweep_axis_R]: Geom/Close.v's [sweep_axis] with real time and real parameter.
+    - [sweep_axis_R]: Geom/Close.v's [sweep_axis] with real time and real parameter, and with any half-open box
+      [lo, hi) around the targets instead of the symmetric [-h, h).
     - [rationalize]: if the segment a b (integer end points) is inside a half-open box with integer bounds at a REAL
       parameter between two rational parameters, it is inside it at a RATIONAL parameter between them: every
       non-strict constraint is either tight with a non-zero rational slope (then the parameter is rational), or
@@ -10,34 +11,35 @@ From Texel Require Import Prelude.Base Index.Model Index.ProofsLine.
 Local Open Scope R_scope.
 
 (** ** convexity and the sweep lemma, one axis *)
-Lemma convex_half_open_R (h u v mu : R) : - h <= u -> u < h -> - h <= v -> v < h -> 0 <= mu -> mu <= 1 ->
-  - h <= (1 - mu) * u + mu * v /\ (1 - mu) * u + mu * v < h.
+Lemma convex_half_open_R (lo hi u v mu : R) : lo <= u -> u < hi -> lo <= v -> v < hi -> 0 <= mu -> mu <= 1 ->
+  lo <= (1 - mu) * u + mu * v /\ (1 - mu) * u + mu * v < hi.
 Proof.
   intros U1 U2 V1 V2 M0 M1.
-  assert (P1 : 0 <= (1 - mu) * (u + h)) by (apply Rmult_le_pos; lra).
-  assert (P2 : 0 <= mu * (v + h)) by (apply Rmult_le_pos; lra).
-  assert (P3 : 0 <= (1 - mu) * (h - u)) by (apply Rmult_le_pos; lra).
-  assert (P4 : 0 <= mu * (h - v)) by (apply Rmult_le_pos; lra).
+  assert (P1 : 0 <= (1 - mu) * (u - lo)) by (apply Rmult_le_pos; lra).
+  assert (P2 : 0 <= mu * (v - lo)) by (apply Rmult_le_pos; lra).
+  assert (P3 : 0 <= (1 - mu) * (hi - u)) by (apply Rmult_le_pos; lra).
+  assert (P4 : 0 <= mu * (hi - v)) by (apply Rmult_le_pos; lra).
   split; [lra |].
   destruct (Req_dec mu 1) as [-> | N].
   - lra.
-  - assert (P5 : 0 < (1 - mu) * (h - u)) by (apply Rmult_lt_0_compat; lra). lra.
+  - assert (P5 : 0 < (1 - mu) * (hi - u)) by (apply Rmult_lt_0_compat; lra). lra.
 Qed.
 
-Lemma sweep_axis_R (h lam mu a' b' c1 c2 v d : R) :
+(** the box [lo, hi) around the target is the same for the three pixels involved; it need not be symmetric (the
+    centre of a pixel of odd size is half a unit off its middle) *)
+Lemma sweep_axis_R (lo hi lam mu a' b' c1 c2 v d : R) :
   0 <= lam -> lam <= 1 -> 0 <= mu -> mu <= 1 ->
-  - h <= a' - c1 -> a' - c1 < h -> - h <= b' - c2 -> b' - c2 < h -> - h <= v - d -> v - d < h ->
+  lo <= a' - c1 -> a' - c1 < hi -> lo <= b' - c2 -> b' - c2 < hi -> lo <= v - d -> v - d < hi ->
   (1 - lam) * v + lam * d = (1 - mu) * ((1 - lam) * a' + lam * c1) + mu * ((1 - lam) * b' + lam * c2) ->
-  - h <= ((1 - mu) * a' + mu * b') - d /\ ((1 - mu) * a' + mu * b') - d < h.
+  lo <= ((1 - mu) * a' + mu * b') - d /\ ((1 - mu) * a' + mu * b') - d < hi.
 Proof.
   intros L0 L1 M0 M1 A1 A2 B1 B2 V1 V2 E.
-  destruct (convex_half_open_R h (a' - c1) (b' - c2) mu A1 A2 B1 B2 M0 M1) as [E1 E2].
+  destruct (convex_half_open_R lo hi (a' - c1) (b' - c2) mu A1 A2 B1 B2 M0 M1) as [E1 E2].
   set (e := (1 - mu) * (a' - c1) + mu * (b' - c2)) in *.
-  (* w - d = (1 - lam) (v - d) + lam e, with the weights the other way round for the half-open side *)
   assert (W : ((1 - mu) * a' + mu * b') - d = (1 - lam) * (v - d) + lam * e).
   { unfold e. replace ((1 - lam) * (v - d)) with ((1 - lam) * v + lam * d - d) by ring. rewrite E. ring. }
   rewrite W.
-  destruct (convex_half_open_R h e (v - d) (1 - lam) E1 E2 V1 V2 ltac:(lra) ltac:(lra)) as [X1 X2].
+  destruct (convex_half_open_R lo hi e (v - d) (1 - lam) E1 E2 V1 V2 ltac:(lra) ltac:(lra)) as [X1 X2].
   replace (1 - (1 - lam)) with lam in * by ring. lra.
 Qed.
 
